@@ -66,8 +66,13 @@ macro_rules! c15_layout {
                 c15_check(stringify!($ty), stringify!($ty), &$ty);
             }
             #[kani::proof]
-            pub fn c15_t_any() {
+            pub fn c15_q_any() {
                 c15_check(concat!("AnyLayout::", stringify!($ty)), stringify!($ty), &AnyLayout::$ty($ty));
+            }
+            #[kani::proof]
+            pub fn c15_q_anyref() {
+                let a = AnyLayout::$ty($ty);
+                c15_check(concat!("&AnyLayout::", stringify!($ty)), stringify!($ty), &&a);
             }
         }
     };
